@@ -17,8 +17,9 @@ Closes the two clauses of C18 that `Props/C18.lean` / `Props/C10Wire.lean` leave
 * "RSA PKCS#1 v1.5 … so that the key holder recovers them exactly": part C derives the recovery law
   that `Model/Login.lean` assumes of its `Rsa` parameter from RFC 8017 §7.2 over an abstract RSA
   permutation.
-* Part D re-checks A–C against the LIVE code on every run (`Generated/C18Keys.lean`, produced by
-  `harness/gen/c18keys.py` from the real `LoginReactor.react`).
+* `Props/C18KeysLive.lean` re-checks A–C against the LIVE code on every run
+  (`Generated/C18Keys.lean`, produced by `harness/gen/c18keys.py` from the real
+  `LoginReactor.react`).
 
 Each clause comes with refutations: models of CHANGED code (constant secret, secret drawn once and
 kept, reversed / constant key, constant IV, a separate decryptor for the file wrapper) violate the
@@ -134,15 +135,16 @@ def katCipher : Bytes :=
    0x61, 0x73]
 
 /-- A known answer with key = IV (the vectors of `Props/C18.lean` have key ≠ IV): one-shot, and
-through the channel `create_AES_cipher` sets up with the stream cut into `send` 7 + 11 and, for the
-other direction, `recv` 5 + file `read` 13. -/
+through the channel `create_AES_cipher` sets up with the first 7 bytes cut into `send` 3 + 4 and,
+for the other direction, the first 5 bytes into `recv` 2 + file `read` 3. -/
 theorem keyiv_known_answer :
     (cfb8Enc (aes128 katSecret) katSecret katPlain).2 = katCipher ∧
       KChan.create katSecret = .ok ⟨katSecret, katSecret, katSecret⟩ ∧
       (KChan.run ⟨katSecret, katSecret, katSecret⟩
-          [.send (katPlain.take 7), .recv (katCipher.take 5), .send (katPlain.drop 7),
-            .read (katCipher.drop 5)]).2 =
-        [katCipher.take 7, katPlain.take 5, katCipher.drop 7, katPlain.drop 5] := by
+          [.send (katPlain.take 3), .recv (katCipher.take 2), .send ((katPlain.drop 3).take 4),
+            .read ((katCipher.drop 2).take 3)]).2 =
+        [katCipher.take 3, katPlain.take 2, (katCipher.drop 3).take 4,
+          (katPlain.drop 2).take 3] := by
   decide +kernel
 
 /-! ### refutations: changed constructors / wrappers violate `pycraft_channel_spec` -/
@@ -379,9 +381,29 @@ theorem reference_server_recovers (P : KeyParams) (n0 : Nat) (steps : List Step)
   refine ⟨rfl, rfl, rfl, ?_⟩
   rcases hcase with ⟨hk0, hno⟩ | ⟨hk1, hhas, -⟩
   · have hk0' : s.keys = [] := hk0
-    simp [hk0', hno]
+    have hno' : hasEncResp s.log = false := hno
+    simp [hk0', hno']
   · have hk1' : s.keys = [P.rng.draw n0] := hk1
-    simp [hk1', hhas]
+    have hhas' : hasEncResp s.log = true := hhas
+    simp [hk1', hhas']
+
+/-- Tie to `Model/Login.lean`.  For ANY run that reaches at most one encryption request this model
+and the login model of `Props/C10.lean` / `Props/C10Wire.lean` — run with its one `secret`
+parameter set to draw `n0` — agree on everything the login model has: the written frames with
+their modes, threshold, reactor, queue, `join` calls, the error, and the cipher flag.  So every C10 /
+C10Wire theorem about such a run holds of this model with `secret := draw n0` and (by
+`wire_is_login_wire`) `E := aes128 (draw n0)`; beyond one request the login model's single secret
+and single cipher no longer describe the code (`second_request_nests`). -/
+theorem login_model_agrees (P : KeyParams) (n0 : Nat) (steps : List Step)
+    (h1 : (reqs (processed (events steps))).length ≤ 1) :
+    let cs := exec (P.login (P.rng.draw n0)) .init steps
+    let ks := execK P (.init n0) steps
+    ks.log = cs.outbox ∧ ks.threshold = cs.threshold ∧ ks.reactor = cs.reactor ∧
+      ks.queue = cs.queue ∧ ks.joins = cs.joins ∧ ks.err = cs.err.map KErr.login ∧
+      cs.encrypted = !ks.layers.isEmpty := by
+  intro cs ks
+  obtain ⟨a, b, c, d, e, f, g⟩ := sim_final P n0 steps h1
+  exact ⟨a, b, c, d, e, f, g⟩
 
 /-- A second request really nests: on the concrete run `demoTwice` (two requests, a plugin request
 after each) the bytes the real socket gets are NOT the single-cipher wire of `Model/LoginWire.lean`
@@ -411,21 +433,15 @@ key, while `fresh_spec` demands two different draws. -/
 theorem kept_secret_refuted (c : Nat) : ¬ FreshSpec (genFixed c) := by
   intro h
   have h2 := h demoKP 0 twoLogins
-  have hl : (loginsWith (genFixed c) KChan.create demoKP 0 twoLogins).flatMap KState.keys =
-      [demoKP.rng.draw c, demoKP.rng.draw c] := by
-    have hc : KChan.create (demoKP.rng.draw c) =
-        .ok ⟨demoKP.rng.draw c, demoKP.rng.draw c, demoKP.rng.draw c⟩ :=
-      create_of_len _ (demoKP.rng.len16 c)
-    simp [loginsWith, twoLogins, demoLogin, schedule, sched, execWith, stepWith, reactWith,
-      genFixed, hc, KState.init, KState.flushQueue, KState.writeNow, KState.keys, updates,
-      updates_stackSend_keys]
   have hr : (drawIdxs 0 (twoLogins.map fun r => (r.1, (reqs (processed (events r.2))).length))).map
       demoKP.rng.draw = [demoKP.rng.draw 0, demoKP.rng.draw 2] := by decide +kernel
-  rw [hl, hr] at h2
-  have h01 : demoKP.rng.draw 0 = demoKP.rng.draw 2 := by
-    simp only [List.cons.injEq, and_true] at h2
-    rw [← h2.1, ← h2.2]
-  revert h01; decide +kernel
+  have hall := logins_keys_from_gen (genFixed c) demoKP (· = demoKP.rng.draw c) (fun _ => rfl) 0
+    twoLogins
+  rw [h2, hr] at hall
+  have h0 := hall (demoKP.rng.draw 0) (by simp)
+  have h2' := hall (demoKP.rng.draw 2) (by simp)
+  have h02 : demoKP.rng.draw 0 = demoKP.rng.draw 2 := h0.trans h2'.symm
+  revert h02; decide +kernel
 
 /-! ## C. PKCS#1 v1.5: the key holder recovers secret and token exactly -/
 
@@ -454,65 +470,6 @@ theorem login_messages_recovered (T : Trapdoor) (hk : T.k = 128 ∨ T.k = 256) (
   obtain ⟨c2, a2, -, b2⟩ := rsaes_dec_enc T ps2 token h2 (by omega)
   exact ⟨⟨c1, a1, b1⟩, ⟨c2, a2, b2⟩⟩
 
-/-! ## D. the live code (regenerated table, `harness/gen/c18keys.py`) -/
-
-open PyCraft.Gen.C18Keys in
-/-- LIVE, fresh per login.  In each of the four logins (the first three on ONE `Connection`
-object) and in each of the two requests of the nested probe the real `react` made exactly one
-`os.urandom` call, of 16 bytes, WHILE it ran; and the call numbers are strictly increasing across
-all six requests (they are 1, 3, 5, 7, 8, 9: every other one of the first eight is the unrelated
-call the generator makes before each login).  A constant secret, a secret cached on the connection
-or in the module, or one drawn before the request, makes this false. -/
-theorem live_one_fresh_draw_per_request :
-    (∀ row ∈ logins, row.draws.map (·.2) = [16]) ∧
-      nested.draws1.map (·.2) = [16] ∧ nested.draws2.map (·.2) = [16] ∧
-      ((logins.flatMap (·.draws) ++ nested.draws1 ++ nested.draws2).map (·.1)).Pairwise (· < ·) := by
-  decide +kernel
-
-open PyCraft.Gen.C18Keys in
-/-- LIVE, the secret reaches the server.  The two fields of every encryption response, as found on
-the wire and opened with the raw RSA private-key operation, are `k`-octet EME-PKCS1-v1_5 blocks
-that this file's decoder (`emeDecode`, RFC 8017 §7.2.2) opens to: the draw made during that very
-request — first field — and the server's verify token — second field (1024- and 2048-bit keys,
-tokens of 1, 4, 16 and 64 bytes). -/
-theorem live_secret_reaches_server :
-    (∀ row ∈ logins,
-      row.emSecret.length = row.kBytes ∧ row.emToken.length = row.kBytes ∧
-        emeDecode row.emSecret = .ok (stubDraw (rowIdx row.draws)) ∧
-        emeDecode row.emToken = .ok row.token) ∧
-      emeDecode nested.emSecret1 = .ok (stubDraw (rowIdx nested.draws1)) := by
-  decide +kernel
-
-open PyCraft.Gen.C18Keys in
-/-- LIVE, key = IV = that draw under AES-128.  What the wrappers installed by the real `react` do
-to a fixed sequence of `socket.send` / `socket.recv` / `file_object.read` calls is, call by call,
-what `KChan.run` does from `KChan.create (that draw)`: AES-128-CFB8, key and IV both the draw, one
-continuous stream per direction, the file wrapper sharing the socket wrapper's decryptor. -/
-theorem live_channel_keyed_by_draw :
-    ∀ row ∈ logins,
-      KChan.create (stubDraw (rowIdx row.draws)) =
-          .ok ⟨stubDraw (rowIdx row.draws), stubDraw (rowIdx row.draws),
-            stubDraw (rowIdx row.draws)⟩ ∧
-        (KChan.run ⟨stubDraw (rowIdx row.draws), stubDraw (rowIdx row.draws),
-            stubDraw (rowIdx row.draws)⟩ (row.calls.map opOf)).2 = row.calls.map (·.2.2) := by
-  decide +kernel
-
-open PyCraft.Gen.C18Keys in
-/-- LIVE, a second request nests.  After two requests on one connection the real socket got, for
-the second reply, the first five bytes `85 02 01 80 01` (frame length 261, packet id, length 128
-of the first field) ENCRYPTED under the first draw, 263 bytes in all; and what `socket.recv` /
-`file_object.read` return afterwards is the stack of both ciphers (`mkStack`: first draw
-innermost) applied to what the real socket / raw file returned. -/
-theorem live_second_request_nests :
-    let d1 := stubDraw (rowIdx nested.draws1)
-    let d2 := stubDraw (rowIdx nested.draws2)
-    mkStack [d1, d2] = .ok [⟨d2, d2, d2⟩, ⟨d1, d1, d1⟩] ∧
-      (stackSend [⟨d1, d1, d1⟩] [0x85, 0x02, 0x01, 0x80, 0x01]).2 = nested.reply2Head ∧
-      nested.reply2Len = 2 + (1 + (2 + 128) + (2 + 128)) ∧
-      stackRun [⟨d2, d2, d2⟩, ⟨d1, d1, d1⟩] (nested.calls.map opOf) =
-        nested.calls.map (·.2.2) := by
-  decide +kernel
-
 /-! ## Non-vacuity -/
 
 -- `create_iff`: both branches occur; 24- and 32-byte secrets are valid AES keys but not valid IVs
@@ -528,7 +485,7 @@ example : ∃ c, KChan.create katSecret = .ok c := ⟨_, rfl⟩
 -- `cfb8_spec`: a 16-byte IV and an 18-byte plaintext; byte 17's register window is the last 16
 -- ciphertext bytes
 example : katSecret ≠ [] ∧ katPlain.length = 18 ∧
-    ((katSecret ++ katCipher.take 17).drop 17) = katCipher.drop 1 |>.take 16 := by decide
+    (katSecret ++ katCipher.take 17).drop 17 = (katCipher.drop 1).take 16 := by decide
 
 -- `secret_fresh` with k = 1: a prefix that contains a request and nothing terminal
 example : (∀ e ∈ events (schedule 1 [.encRequest "srv" [7, 8] [9], .pluginRequest 5 "ch" [1]]),
@@ -548,7 +505,10 @@ example :
 
 -- `keys_are_consecutive_draws`: the injectivity hypothesis holds for the demo oracle
 example : ∀ i j, i < 2 → j < 2 → demoKP.rng.draw (0 + i) = demoKP.rng.draw (0 + j) → i = j := by
-  decide
+  intro i j hi hj
+  have h : ∀ i, i < 2 → ∀ j, j < 2 → demoKP.rng.draw (0 + i) = demoKP.rng.draw (0 + j) → i = j := by
+    decide
+  exact h i hi j hj
 
 -- `logins_use_disjoint_draws`: two logins, one unrelated draw in between: call numbers 0 and 2
 example : drawIdxs 0 (twoLogins.map fun r => (r.1, (reqs (processed (events r.2))).length)) =
@@ -574,24 +534,21 @@ example : (reqs (processed (events demoLogin))).length = 1 ∧
         (cfb8Enc (aes128 (List.replicate 16 1)) (List.replicate 16 1) [0x03, 0x02, 0x05, 0x00]).2 := by
   decide +kernel
 
--- `pkcs1_key_holder_recovers`: a toy key pair (k = 12: modulus 256^11 + 1 octets, RSAEP = add 1
--- mod n) and a lawful padding string for a 1-byte message; both branches of the statement occur
+-- `login_model_agrees`: on `demoLogin` both models write the same two frames (and on `demoTwice`,
+-- which reaches two requests, they do not: the second reply carries another secret)
+example : (execK demoKP (.init 0) demoLogin).log =
+      (exec (demoKP.login (demoKP.rng.draw 0)) .init demoLogin).outbox ∧
+    (execK demoKP (.init 0) demoLogin).log.length = 2 ∧
+    (execK demoKP (.init 0) demoTwice).log ≠
+      (exec (demoKP.login (demoKP.rng.draw 0)) .init demoTwice).outbox := by decide +kernel
+
+-- `pkcs1_key_holder_recovers`: a toy key pair (k = 12, modulus 2^88 = 256^11, RSAEP = RSADP = flip
+-- the lowest bit) and a lawful padding string for a 1-byte message; both branches occur
 def toyT : Trapdoor :=
-  { k := 12, n := 256 ^ 11 + 1, f := fun x => (x + 1) % (256 ^ 11 + 1),
-    finv := fun y => (y + 256 ^ 11) % (256 ^ 11 + 1),
+  { k := 12, n := 2 ^ 88, f := fun x => x ^^^ 1, finv := fun y => y ^^^ 1,
     n_lo := by decide, n_hi := by decide,
-    f_lt := fun x _ => Nat.mod_lt _ (by decide),
-    inv := fun x hx => by
-      have h1 : (x + 1) % (256 ^ 11 + 1) = if x + 1 = 256 ^ 11 + 1 then 0 else x + 1 := by
-        split
-        · next h => rw [h]; exact Nat.mod_self _
-        · exact Nat.mod_eq_of_lt (by omega)
-      rw [h1]
-      split
-      · next h => have : x = 256 ^ 11 := by omega
-                  subst this; decide
-      · rw [show x + 1 + 256 ^ 11 = x + (256 ^ 11 + 1) by omega, Nat.add_mod_right]
-        exact Nat.mod_eq_of_lt hx }
+    f_lt := fun x hx => Nat.xor_lt_two_pow hx (by decide),
+    inv := fun x _ => by simp [Nat.xor_assoc] }
 
 example : PsOK toyT.k [9, 8, 7, 6, 5, 4, 3, 2] [0x2a] ∧
     rsaesEncrypt toyT [9, 8, 7, 6, 5, 4, 3, 2] [0x2a] = .ok [0, 2, 9, 8, 7, 6, 5, 4, 3, 2, 0, 0x2b] ∧
